@@ -183,4 +183,14 @@ def noDeadRefs (dump : String) : Option String :=
                       else if m != 0 then some "wr (virtual registers still tied to a work register)" else none
   | _, _ => none
 
+/-- last function of a `fnbytes` answer (`fn:<hex of function 1>:<hex of function 2>…`) -/
+def lastFn (s : String) : String := ((s.splitOn ":").getLast?).getD ""
+
+/-- **a later function does not inherit from earlier ones**: the bytes of the last function compiled after other functions
+    in the same Compiler (one `finalize`) equal its bytes when it is compiled alone. `none` = fine. -/
+def laterFunctionIndependent (afterOthers alone : String) : Option String :=
+  if !afterOthers.startsWith "fn:" || !alone.startsWith "fn:" then some "malformed"
+  else if lastFn alone == "" || lastFn alone == "unbound" then some "not compiled"
+  else if lastFn afterOthers == lastFn alone then none else some "function bytes differ"
+
 end AsmjitVerif.Reuse
